@@ -14,7 +14,7 @@ CLAIMED = {
    note="Not yet under contract in this revision: RankNoisy's bands, heur.init's layout assertion, and the picker's per-call state machine (yield order, sentinel marking); the exactly-once clause over a whole iteration is therefore not claimed yet. No-other-writers of the history tables is by inspection (fields are unexported and only Add/Clear store to them).",
    ref="DESIGN.md section 5 C16"),
  "C02": dict(
-   text="Proof by contracts on MakeMove, CanEnPassant, IsAttacked/InCheck and the attack tables (C12), for a fully symbolic board and move: quick tier discharges side to move, castling rights (NewCastles vs the rule), halfmove clock, fullmove number, hash-history push and the e.p. field (target recorded iff a legal e.p. capture exists: CanEnPassant == existsLegalEP of the rule spec, 16 colour x file cases; this obligation found defect F1, repaired). The piece-placement clause (all six piece sets and both colour sets equal the rule successor) is discharged in the thorough tier (about 200 s, unsplit). The halfmove clock obligation over mathematical integers fails exactly for clock 127 (int8 wrap): known finding F4.",
+   text="Proof by contracts on MakeMove, CanEnPassant, IsAttacked/InCheck and the attack tables (C12), for a fully symbolic board and move: quick tier discharges side to move, castling rights (NewCastles vs the rule), halfmove clock, fullmove number, hash-history push and the e.p. field (target recorded iff a legal e.p. capture exists: CanEnPassant == existsLegalEP of the rule spec, 16 colour x file cases; this obligation found defect F1, repaired). The piece-placement clause (all six piece sets and both colour sets equal the rule successor) is discharged in the quick tier as well (about 20 s with the bit-blasting racer). The halfmove clock obligation over mathematical integers fails exactly for clock 127 (int8 wrap): known finding F4.",
    note="MakeMove is verified under the local precondition `movable` + `lightPos`; lemma movableFromPseudo shows every pseudo-legal move of a valid position satisfies it. Not covered: uci.applyMoves/parseUCIMove (string handling) are not under contract, so the `position ... moves` path relies on C05's gate only; chains of moves follow by induction over the single-step contract (validity preservation lemma not mechanised in this revision).",
    ref="DESIGN.md section 5 C02"),
  "C03": dict(
@@ -22,7 +22,7 @@ CLAIMED = {
    note="In the make/undo scenario CanEnPassant and Hash are used through frame-only views (their values are immaterial for the round trip; frames proved in their main contracts). Nesting to arbitrary depth follows from the single-step round trip by induction (not mechanised). The Reverse token is whatever MakeMove produced (no separate token contract). The scenario's end-reachability probe needs about 140 s and is decided in the thorough tier only.",
    ref="DESIGN.md section 5 C03 and section 11"),
  "C04": dict(
-   text="Proof: addPiece/removePiece preserve the representation invariant (piece map == piece sets == colour sets) and change the placement fold by exactly the returned key (1792 split cases over square x colour x piece); calculateHash equals the specification hash zhash (loop invariant over the bit loop + fold lemmas), ResetHash installs it; MakeNullMove keeps hash == zhash; MakeMove keeps hash == zhash and the representation invariant (thorough tier: about 130 s; quick tier checks all its call preconditions and the cheaper clauses). zhash is a function of placement, side, rights and e.p. file only, which gives the transposition clause.",
+   text="Proof: addPiece/removePiece preserve the representation invariant (piece map == piece sets == colour sets) and change the placement fold by exactly the returned key (1792 split cases over square x colour x piece); calculateHash equals the specification hash zhash (loop invariant over the bit loop + fold lemmas), ResetHash installs it; MakeNullMove keeps hash == zhash; MakeMove keeps hash == zhash and the representation invariant (thorough tier: 60 s and 170 s; quick tier checks all its call preconditions, the placement clause and the cheaper clauses). zhash is a function of placement, side, rights and e.p. file only, which gives the transposition clause.",
    note="The Zobrist tables are arbitrary (uninterpreted) so the proof holds for any table contents. UndoMove's hash pop is covered by C03's scenario. The fold over 64 squares is kept opaque in callers (memoised through control-flow merges).",
    ref="DESIGN.md section 5 C04"),
  "C05": dict(
